@@ -148,6 +148,17 @@ func (w *worker) saveFail(c interface{}, f *Failure) {
 	if f.Known != "" {
 		rec["known"] = f.Known
 	}
+	env := map[string]string{}
+	for _, kv := range os.Environ() {
+		if strings.HasPrefix(kv, "FRUGAL_") || strings.HasPrefix(kv, "VERIF_C17_") || strings.HasPrefix(kv, "GODEBUG=") {
+			if i := strings.IndexByte(kv, '='); i > 0 {
+				env[kv[:i]] = kv[i+1:]
+			}
+		}
+	}
+	if len(env) > 0 {
+		rec["env"] = env
+	}
 	b, err := json.MarshalIndent(rec, "", " ")
 	if err != nil {
 		b = []byte(fmt.Sprintf(`{"property":%q,"failure":{"class":%q,"msg":%q},"case":null}`, w.id, f.Class, f.Msg))
